@@ -36,6 +36,8 @@ SYSTEMS = [
     ('hcp', [1 / 3, 1 / 3, -2 / 3, 0], [1, 1, -2, 0], [0, 0, 0, 1], 'screw'), ('hcp', [1 / 3, 1 / 3, -2 / 3, 0], [1, -1, 0, 0], [0, 0, 0, 1], 'edge'),
     # non-basal hcp systems: only with the default m='y', n='z' (line along the a box vector); see DESIGN 6.4
     ('hcp0', [0, 1, 0], [-2, -1, 2], [1, 0, 1], 'pyrI_a_edge'), ('hcp0', [1, 1, 1], [1, 1, 1], [1, 1, -2], 'pyrII_ca_screw'),
+    # <a> screw on the first-order pyramidal plane: the rotated cell is tilted WITHIN the plane normal to the line (box faces not orthogonal)
+    ('hcp0', [1, 0, 0], [1, 0, 0], [0, 1, 1], 'pyrI_a_screw'),
 ]
 MN = [('y', 'z'), ('x', 'y'), ('z', 'x'), ('y', 'x')]
 
@@ -80,7 +82,7 @@ def run(ctx):
     Cs['hcp0'] = Cs['hcp']
     recs = []
     refusals = 0
-    ncfg = 24 if quick else 240
+    ncfg = 26 if quick else 260
     for ci in range(ncfg):
         cname, burgers, xi, hkl, kind = SYSTEMS[ci % len(SYSTEMS)]
         m, n = MN[(ci // len(SYSTEMS)) % len(MN)] if ci >= len(SYSTEMS) else MN[ci % 2]
@@ -165,6 +167,21 @@ def run(ctx):
                              'res': [[int(round(v * S)) for v in r] for r in res], 'period': int(round(period * S)), 'tol': 4,
                              'dist': [int(round(v * S)) for v in dist], 'band': 8, 'retyped': retyped if width > 0 else [False] * base.natoms,
                              'dtype': [int(t) for t in disl.atoms.atype], 'btype': [int(t) for t in base.atoms.atype], 'ntypes': int(nt)})
+                # the boundary region alone, for a spread of widths (cheap records: the region surface sweeps through the atomic planes)
+                if variant == 1:
+                    for wk in rng.uniform(1.0, 5.0, 6 if quick else 12):
+                        for shp in ('box', 'cylinder'):
+                            try:
+                                bs, dl = d.monopole(sizemults=list(mults), shiftindex=si, center=center, boundaryshape=shp, boundarywidth=float(wk), return_base_system=True)
+                            except AssertionError as e:
+                                if 'radius must be positive' in str(e):      # the width leaves no region in this small system: refusal
+                                    refusals += 1
+                                    continue
+                                raise
+                            dist = signed_region_distance(shp, bs.box, line, float(wk), dl.atoms.pos)
+                            recs.append({'ev': 'boundary', 'tag': '%s:w%.4f:%s' % (tag, wk, shp), 'dist': [int(round(v * S)) for v in dist], 'band': 8,
+                                         'retyped': [bool(t > nt) for t in dl.atoms.atype], 'dtype': [int(t) for t in dl.atoms.atype],
+                                         'btype': [int(t) for t in bs.atoms.atype], 'ntypes': int(nt)})
                 # disregistry accumulates to one Burgers vector (tail of the Volterra field beyond the system width)
                 planepos = np.zeros(3)
                 coord, dis = disregistry(base, disl, m=d.dislsol.m, n=d.dislsol.n, planepos=planepos)
@@ -195,7 +212,7 @@ def run(ctx):
     ctx.states += st_
     ctx.transitions += tr
     ctx.traces += ok
-    ctx.extra['records'] = {k: sum(1 for r_ in recs if r_['ev'] == k) for k in ('monopole', 'array', 'disreg')}
+    ctx.extra['records'] = {k: sum(1 for r_ in recs if r_['ev'] == k) for k in ('monopole', 'array', 'disreg', 'boundary')}
     import copy
     neg = []
     for r_ in recs:
